@@ -26,7 +26,7 @@ ASSUMPTIONS = [
 COMPONENTS = {'real': ['yldprolog.engine fact store, match_dynamic, retract/retractall/asserta/assertz builtins, clear', 'compiled idiom clauses (real compiler output)'],
               'stub': ['scheduler of the suspended enumerations and of the mutations between their steps'],
               'oracle': ['logical-update-view model: enumerations walk the records present at their start; retract skips records no longer stored; store = all asserts and removals applied']}
-REQUIRED_PROBES = ('fault_assert_overflow', 'fault_retractall_overflow', 'deep_fact_stored', 'guarded_scan_started', 'step_in_large_enumeration', 'nonground_fact_answered', 'step_after_mutation', 'mutation_under_suspended_enum', 'mutation_adjacent_to_cursor', 'retract_enum_skipped_removed',
+REQUIRED_PROBES = ('goal_created_started_later', 'fault_assert_overflow', 'fault_retractall_overflow', 'deep_fact_stored', 'guarded_scan_started', 'step_in_large_enumeration', 'nonground_fact_answered', 'step_after_mutation', 'mutation_under_suspended_enum', 'mutation_adjacent_to_cursor', 'retract_enum_skipped_removed',
                    'query_enum_visited_removed', 'two_enums_same_predicate', 'idiom_drain', 'idiom_upd', 'clear_under_suspended_enum')
 
 KEYS = [('p', 1), ('c', 1), ('p', 2), ('tok', 0)]
@@ -71,13 +71,17 @@ class ModelSim:
         except TM.Cyclic:
             return False
 
-    def start(self, kind, key, pat):
-        e = {'kind': kind, 'key': key, 'pat': pat, 'snap': self.store.snapshot(key), 'pos': 0, 'mutated': False, 'skipped': 0, 'visited_removed': 0}
+    def start(self, kind, key, pat, lazy=False):
+        # lazy: the goal has only been created; it starts (and takes its view of the facts) at its first next()
+        e = {'kind': kind, 'key': key, 'pat': pat, 'snap': None if lazy else self.store.snapshot(key), 'pos': 0, 'mutated': False, 'skipped': 0, 'visited_removed': 0}
         self.enums.append(e)
         return e
 
     def next(self, e):
         """returns the row answered next (after applying a retract's removal) or None"""
+        if e['snap'] is None:
+            e['snap'] = self.store.snapshot(e['key'])
+            e['mutated'] = False
         if e['kind'] == 'g' and e.get('inner'):
             # the guard c(a) of the current p fact has further solutions (several c(a) facts): same answer again
             e['inner'] -= 1
@@ -232,13 +236,18 @@ def gen(seed, tier):
             if key == ('p', 1) and 1 in keys and rng.random() < 0.3:
                 kind = 'g'
             pat = gen_pat(rng, key[1])
-            ops.append(['start', kind, ki, pat])
-            e = m.start(kind, key, [TM.T(t) for t in pat])
-            if m.next(e) is None:
-                e['done'] = True
+            if rng.random() < 0.2:
+                # the goal is only created now and started by a later step (whatever happens in between)
+                ops.append(['start', kind, ki, pat, 'lazy'])
+                m.start(kind, key, [TM.T(t) for t in pat], lazy=True)
+            else:
+                ops.append(['start', kind, ki, pat])
+                e = m.start(kind, key, [TM.T(t) for t in pat])
+                if m.next(e) is None:
+                    e['done'] = True
         elif k < 0.68 and live:
             i = rng.randrange(len(live))
-            if len(live[i]['snap']) > 40 and rng.random() < 0.5:
+            if len(live[i]['snap'] or []) > 40 and rng.random() < 0.5:
                 nsteps = rng.randrange(2, 90)
                 ops.append(['stepn', i, nsteps])
                 for _ in range(nsteps):
@@ -309,7 +318,7 @@ def show_op(op):
     if op[0] == 'assert':
         return '%s %s' % ('asserta' if op[1] else 'assertz', show_goal(op[2], op[3]))
     if op[0] == 'start':
-        return 'start-%s %s' % ({'q': 'query', 'r': 'retract', 'g': 'guarded-scan (p(X), c(a))'}[op[1]], show_goal(op[2], op[3]))
+        return '%s-%s %s' % ('create' if len(op) > 4 and op[4] == 'lazy' else 'start', {'q': 'query', 'r': 'retract', 'g': 'guarded-scan (p(X), c(a))'}[op[1]], show_goal(op[2], op[3]))
     if op[0] == 'deepfact':
         return 'assertz %s(<100-element list>%s)' % (KEYS[op[1]][0], ',a' * (KEYS[op[1]][1] - 1))
     if op[0] == 'faultop':
@@ -373,7 +382,7 @@ def execute(plan):
         if e['visited_removed'] > before[1]:
             log.count('query_enum_visited_removed')
         if e['mutated']:
-            log.key((tag, e['kind'], tuple(e['pat']), e['pos'], tuple(r for _, r in e['snap'][:40]), tuple(m.store.rows(e['key'])[:40])))
+            log.key((tag, e['kind'], tuple(e['pat']), e['pos'], tuple(r for _, r in (e['snap'] or [])[:40]), tuple(m.store.rows(e['key'])[:40])))
         log.ev(tag, e['kind'], ok, None if got is None else tuple(TM.show(x) for x in got))
         if got != want:
             log.violation('enumeration-differs', {'enumeration': {'q': 'query ', 'r': 'retract ', 'g': 'guarded scan gscan(X) :- p(X), c(a). over '}[e['kind']] + show_goal(KEYS.index(e['key']), [TM.J(p) for p in e['pat']]),
@@ -400,13 +409,14 @@ def execute(plan):
                 under = [x for x in live if x['e']['key'] == key]
                 if under:
                     log.count('mutation_under_suspended_enum')
-                    log.key(('assert', front, tuple(row), tuple((x['e']['kind'], x['e']['pos'], len(x['e']['snap'])) for x in under), tuple(m.store.rows(key)[:40])))
+                    log.key(('assert', front, tuple(row), tuple((x['e']['kind'], x['e']['pos'], len(x['e']['snap'] or [])) for x in under), tuple(m.store.rows(key)[:40])))
                 term = yp.functor(key[0], [TM.build(yp, TM.T(t), {}) for t in row]) if key[1] else yp.atom(key[0])
                 n = sum(1 for _ in yp.query('asserta' if front else 'assertz', [term]))
                 m.add(key, [TM.T(t) for t in row], front)
                 log.ev('assert', front, ki, n)
             elif kind == 'start':
-                _, k2, ki, pat = op
+                _, k2, ki, pat = op[:4]
+                lazy = len(op) > 4 and op[4] == 'lazy'
                 if len(live) >= 3:
                     log.ev('noop')
                     continue
@@ -420,9 +430,12 @@ def execute(plan):
                 if k2 == 'g':
                     log.count('guarded_scan_started')
                 g = (yp.query(key[0], pargs) if k2 == 'q' else yp.query('gscan', pargs) if k2 == 'g' else yp.query('retract', [yp.functor(key[0], pargs) if key[1] else yp.atom(key[0])]))
-                entry = {'e': m.start(k2, key, pat), 'task': GenTask(g), 'pargs': pargs, 'steps': 0}
+                entry = {'e': m.start(k2, key, pat, lazy), 'task': GenTask(g), 'pargs': pargs, 'steps': 0}
                 live.append(entry)
-                if not do_step(entry, 'start'):
+                if lazy:
+                    log.count('goal_created_started_later')
+                    log.ev('create', k2, ki)
+                elif not do_step(entry, 'start'):
                     break
             elif kind == 'step':
                 if not live:
@@ -441,7 +454,7 @@ def execute(plan):
                     if entry not in live:
                         break
                     log.count('cases')
-                    if len(entry['e']['snap']) > 64:
+                    if len(entry['e']['snap'] or []) > 64:
                         log.count('step_in_large_enumeration')
                     if not do_step(entry, 'step'):
                         ok_all = False
@@ -521,7 +534,7 @@ def execute(plan):
                     log.count('mutation_under_suspended_enum')
                     if aimed:
                         log.count('mutation_adjacent_to_cursor')
-                    log.key((kind, tuple(pat), tuple((x['e']['kind'], x['e']['pos'], len(x['e']['snap'])) for x in under), tuple(m.store.rows(key)[:40])))
+                    log.key((kind, tuple(pat), tuple((x['e']['kind'], x['e']['pos'], len(x['e']['snap'] or [])) for x in under), tuple(m.store.rows(key)[:40])))
                 vmap = {}
                 pargs = [TM.build(yp, t, vmap) for t in pat]
                 term = yp.functor(key[0], pargs) if key[1] else yp.atom(key[0])
